@@ -450,7 +450,8 @@ func (w *Writer) ReadFrom(src io.Reader) (n int64, err error) {
 			nr++
 		}
 		if nr == maxEmptyReads {
-			return n, io.ErrNoProgress
+			err = io.ErrNoProgress
+			break
 		}
 
 		w.n += nn
